@@ -175,9 +175,12 @@ class Lifecycle(ThreadedMixin, Scenario):
             for e in polls:
                 if not e[4]:
                     return Violation("cycle-after-stop", kind, "", info)
-            ts = [e[2] for e in polls]
-            for a, b in zip(ts, ts[1:]):
-                if b - a < POLL and a != self.crashed_at:      # (a loop that died on a failing poll is not active any more)
+            # two loops polling side by side: two cycles begin less than one interval apart with no lifecycle call in
+            # between (a restart may legitimately begin a cycle early: that is not what the property forbids)
+            idx = [i for i, e in enumerate(log) if e[0] == "poll"]
+            for i, j in zip(idx, idx[1:]):
+                if log[j][2] - log[i][2] < POLL and log[i][2] != self.crashed_at \
+                        and not any(e[0] in ("start", "stop") for e in log[i:j]):
                     return Violation("double-loop", kind, "two-cycles-within-one-interval", info)
             vals = [e[3] for e in ins]
             if vals != list(range(1, len(vals) + 1)):
@@ -252,9 +255,9 @@ class Lifecycle(ThreadedMixin, Scenario):
             for e in polls:
                 if not e[4]:
                     return Violation("cycle-after-stop", kind, "", info)
-            ts = [e[2] for e in polls if e[3] == ""]
-            for a, b in zip(ts, ts[1:]):
-                if b - a < POLL:
+            idx = [i for i, e in enumerate(log) if e[0] == "poll" and e[3] == ""]
+            for i, j in zip(idx, idx[1:]):
+                if log[j][2] - log[i][2] < POLL and not any(e[0] in ("start", "stop") for e in log[i:j]):
                     return Violation("double-loop", kind, "two-cycles-within-one-interval", info)
             if final and self.ref_started and vals != want:
                 return Violation("not-all-items", kind, "", info)
